@@ -182,6 +182,7 @@ func runVerify(o *verifyOpts) *verifyResult {
 		return &verifyResult{LoadErr: err.Error()}
 	}
 	e.contentMode = *content
+	e.curProp = *prop
 	loadMs := time.Since(t0).Milliseconds()
 
 	var names []string
